@@ -13,6 +13,9 @@
  *   drv_calstore rand  SEED FROM TO LEN     random histories
  *   drv_calstore exh   DEPTH FROM TO        prefix x alphabet^DEPTH
  *   drv_calstore shapes FROM TO             all types x shapes x 1..3 frequencies
+ *   drv_calstore state SEED FROM TO         refusals that depend on the state
+ *                                           of the vnacal_new_t (error model),
+ *                                           aliased string arguments
  *   drv_calstore bulk  SEED FROM TO         many handles in one vnacal_new_t,
  *                                           unknowns solved by two of them
  *   drv_calstore count DEPTH
@@ -465,7 +468,13 @@ static void project_store(vinfo_t *v)
 	project_prop(vcp, ci, "", 0);
 	vt_put("}");
     }
-    vt_put("],\"find\":[");
+    {
+	const char *fn = LIB(vnacal_get_filename(vcp));
+	const char *dash = fn != NULL ? strrchr(fn, '-') : NULL;
+
+	vt_put("],\"fn\":%d,\"find\":[", fn == NULL ? -1 :
+		dash != NULL ? atoi(dash + 1) : -2);
+    }
     for (int i = 0; i < N_NAMES; ++i)
 	vt_put("%s%d", i ? "," : "", LIB(vnacal_find_calibration(vcp,
 			name_pool[i])));
@@ -772,6 +781,33 @@ static void op_set_z0(vinfo_t *v, ninfo_t *n, int zi)
     ev_finish(ok_int(rv));
 }
 
+/* cls: 0 one value for all frequencies, 1 one value per calibration
+ * frequency (NULL frequency vector), 2 clear (both vectors NULL),
+ * 3 frequencies = 0, 4 a noise value of zero, 5 noise vector NULL but
+ * tracking vector given */
+static void op_set_m_error(vinfo_t *v, ninfo_t *n, int cls)
+{
+    static const double nf[3] = { 1e-5, 2e-5, 1e-5 };
+    static const double tr[3] = { 1e-4, 1e-4, 2e-4 };
+    static const double zero[3] = { 1e-5, 0.0, 0.0 };
+    int rv;
+
+    BEFORE();
+    switch (cls) {
+    case 0:  rv = LIB(vnacal_new_set_m_error(n->vnp, NULL, 1, nf, NULL)); break;
+    case 1:  rv = LIB(vnacal_new_set_m_error(n->vnp, NULL, n->nf, nf, tr)); break;
+    case 2:  rv = LIB(vnacal_new_set_m_error(n->vnp, NULL, 1, NULL, NULL)); break;
+    case 3:  rv = LIB(vnacal_new_set_m_error(n->vnp, NULL, 0, nf, NULL)); break;
+    case 4:  rv = LIB(vnacal_new_set_m_error(n->vnp, NULL, 1, &zero[1], NULL));
+	     break;
+    default: rv = LIB(vnacal_new_set_m_error(n->vnp, NULL, 1, NULL, tr)); break;
+    }
+    CAPTURE();
+    vt_put("{\"e\":\"SetMError\",\"vc\":%d,\"n\":%d,\"cls\":\"%s\",\"k\":%d",
+	    v->id, n->id, cls <= 1 ? "set" : cls == 2 ? "clear" : "bad", cls);
+    ev_finish(ok_int(rv));
+}
+
 /*
  * Add a measured standard.  The measurement is that of an ideal
  * instrument (M equals the S-parameters of the standard; ports the
@@ -951,20 +987,46 @@ static void op_new_free(vinfo_t *v, ninfo_t *n)
 }
 
 /* tv: the store the call is made on; n may belong to another store */
-static void op_add_calibration(vinfo_t *tv, ninfo_t *n, int namei)
+/* alias_ci >= 0: the name argument is the library's own string, the
+ * pointer vnacal_get_name returned for that slot (replace-by-name with an
+ * aliased argument); namei is then ignored */
+static void op_add_calibration_a(vinfo_t *tv, ninfo_t *n, int namei,
+	int alias_ci)
 {
+    const char *name = name_pool[namei];
     int ci;
 
+    if (alias_ci >= 0) {
+	const char *own = LIB(vnacal_get_name(tv->vcp, alias_ci));
+
+	if (own != NULL) {
+	    name = own;
+	    namei = -1;
+	    for (int i = 0; i < N_NAMES; ++i) {
+		if (strcmp(own, name_pool[i]) == 0)
+		    namei = i;
+	    }
+	    if (namei < 0)
+		return;
+	} else {
+	    alias_ci = -1;
+	}
+    }
     BEFORE();
-    ci = LIB(vnacal_add_calibration(tv->vcp, name_pool[namei], n->vnp));
+    ci = LIB(vnacal_add_calibration(tv->vcp, name, n->vnp));
     CAPTURE();
     if (ci >= 0)
 	n->solved = 0;
     if (ci > tv->hici && ci < 64)
 	tv->hici = ci;
     vt_put("{\"e\":\"AddCalibration\",\"vc\":%d,\"n\":%d,\"name\":\"c%d\","
-	    "\"ci\":%d", tv->id, n->id, namei, ci);
+	    "\"alias\":%d,\"ci\":%d", tv->id, n->id, namei, alias_ci >= 0, ci);
     ev_finish(ok_handle(ci));
+}
+
+static void op_add_calibration(vinfo_t *tv, ninfo_t *n, int namei)
+{
+    op_add_calibration_a(tv, n, namei, -1);
 }
 
 static void op_delete_calibration(vinfo_t *v, int ci)
@@ -1102,12 +1164,22 @@ static void op_set_precision(vinfo_t *v, int which, int p)
 
 static void op_save_load(vinfo_t *v, int k2)
 {
-    char path[128];
+    char path[320];
     int file = next_file_id++;
     int rv;
 
-    snprintf(path, sizeof(path), "/tmp/calstore-drv-%ld-%d.vnacal",
-	    (long)getpid(), file);
+    /* next to the trace (the check's work directory, removed afterwards,
+     * also when a crash keeps the driver from unlinking the file) */
+    {
+	const char *tp = getenv("VT_TRACE");
+	const char *slash = tp != NULL ? strrchr(tp, '/') : NULL;
+	int dlen = slash != NULL ? (int)(slash - tp) : 4;
+
+	if (dlen > 200)
+	    dlen = 200;
+	snprintf(path, sizeof(path), "%.*s/calstore-drv-%ld-%d.vnacal", dlen,
+		slash != NULL ? tp : "/tmp", (long)getpid(), file);
+    }
     BEFORE();
     rv = LIB(vnacal_save(v->vcp, path));
     CAPTURE();
@@ -1116,17 +1188,35 @@ static void op_save_load(vinfo_t *v, int k2)
     if (rv == 0 && k2 >= 0) {
 	vinfo_t *w = &VC[k2];
 	vnacal_t *vcp;
+	/* half of the loads name the file by the saving container's own
+	 * filename string */
+	const char *own = (file & 1) ? LIB(vnacal_get_filename(v->vcp)) : NULL;
 
 	BEFORE();
-	vcp = LIB(vnacal_load(path, vt_errfn, NULL));
+	vcp = LIB(vnacal_load(own != NULL ? own : path, vt_errfn, NULL));
 	CAPTURE();
 	if (vcp != NULL) {
 	    h_init(w);
 	    w->vcp = vcp;
 	    w->hici = LIB(vnacal_get_calibration_end(vcp)) - 1;
 	}
-	vt_put("{\"e\":\"Load\",\"vc\":%d,\"file\":%d", k2, file);
+	vt_put("{\"e\":\"Load\",\"vc\":%d,\"file\":%d,\"alias\":%d", k2, file,
+		own != NULL);
 	ev_finish(vcp != NULL);
+    }
+    if (rv == 0) {
+	/* save again under the name the library itself stores: the
+	 * pathname argument aliases vcp's filename string */
+	const char *own = LIB(vnacal_get_filename(v->vcp));
+
+	if (own != NULL) {
+	    BEFORE();
+	    rv = LIB(vnacal_save(v->vcp, own));
+	    CAPTURE();
+	    vt_put("{\"e\":\"Save\",\"vc\":%d,\"file\":%d,\"alias\":1", v->id,
+		    file);
+	    ev_finish(ok_int(rv));
+	}
     }
     (void)unlink(path);
 }
@@ -1650,8 +1740,14 @@ static void progress(vinfo_t *v, ninfo_t *n, vt_rng_t *rng)
 	op_set_z0(v, n, vt_below(rng, N_Z));
     else if (!n->solved)
 	op_solve(v, n);
-    else if (vt_below(rng, 4) != 0)
-	op_add_calibration(v, n, ADD_NAME(rng));
+    else if (vt_below(rng, 4) != 0) {
+	int end = LIB(vnacal_get_calibration_end(v->vcp));
+
+	if (end > 0 && vt_below(rng, 3) == 0)
+	    op_add_calibration_a(v, n, 0, vt_below(rng, end));
+	else
+	    op_add_calibration(v, n, ADD_NAME(rng));
+    }
     else
 	(void)add_useful(v, n, n->id & 1, 0);
 }
@@ -1786,7 +1882,9 @@ static void random_step(vt_rng_t *rng, int *variant)
 	    op_set_frequency_vector(v, n, vt_below(rng, 5) ? 0 :
 		    1 + vt_below(rng, 3));
     } else if (r < 385) {
-	if (n != NULL)
+	if (n != NULL && vt_below(rng, 4) == 0)
+	    op_set_m_error(v, n, vt_below(rng, 6));
+	else if (n != NULL)
 	    op_set_z0(v, n, vt_below(rng, N_Z));
     } else if (r < 600) {
 	if (n != NULL) {
@@ -2314,6 +2412,103 @@ static void shape_case(long c)
     }
 }
 
+/* ------------------------------------------------------ state histories */
+
+/*
+ * Refusals that depend on the state of the vnacal_new_t rather than on the
+ * handles: with a measurement-error model installed, T16 / U16 refuse a
+ * standard that does not give the complete S matrix (a fresh unknown in the
+ * refused standard must stay unregistered); conversely set_m_error is
+ * refused once such a standard has been added (and must not install the
+ * model); set_m_error before the frequency vector; invalid arguments; the
+ * clear form (both vectors NULL) followed by solve, set again and free;
+ * other types as controls.  Then known standards, solve, probes, aliased
+ * save / add_calibration.
+ */
+static void state_case(vt_rng_t *rng)
+{
+    static const int types[4] = { VNACAL_T16, VNACAL_U16, VNACAL_T8,
+	VNACAL_UE14 };
+    vinfo_t *v = &VC[0];
+    int type = types[vt_below(rng, 8) < 6 ? vt_below(rng, 2) :
+	2 + vt_below(rng, 2)];
+    int nf = 1 + vt_below(rng, 2);
+    int order = vt_below(rng, 3);
+    int ports[2] = { 1, 2 };
+    int hs[4];
+    int guess, uf[6], nuf = 0;
+    ninfo_t *n;
+
+    op_create(0);
+    op_make_scalar(v, G_SCALAR0 + vt_below(rng, N_SCALARS));
+    guess = v->lasth;
+    op_new_alloc(v, type, 2, 2, nf, cal_grids[vt_below(rng, N_CAL_GRIDS)]);
+    if ((n = last_new(v)) == NULL)
+	return;
+    if (vt_below(rng, 3) == 0)
+	op_set_m_error(v, n, vt_below(rng, 2));	/* before the frequencies */
+    op_set_frequency_vector(v, n, 0);
+    if (order == 0) {
+	/* model first, then partial-S standards with fresh unknowns */
+	op_set_m_error(v, n, vt_below(rng, 2));
+    } else if (order == 1) {
+	/* partial-S standard first, then the model */
+	ports[0] = 1 + vt_below(rng, 2);
+	hs[0] = vt_below(rng, 3);
+	(void)op_add_std(v, n, SH_REFL1, ports, hs, 0);
+	op_set_m_error(v, n, vt_below(rng, 2));
+	ports[0] = 1 + vt_below(rng, 2);
+	hs[0] = vt_below(rng, 3);
+	(void)op_add_std(v, n, SH_REFL1, ports, hs, 0);
+    }
+    for (int i = 0; i < 2 + vt_below(rng, 3); ++i) {
+	op_make_unknown(v, vt_below(rng, 2) ? guess : vt_below(rng, 3));
+	uf[nuf] = v->lasth;
+	ports[0] = 1 + vt_below(rng, 2);
+	ports[1] = 3 - ports[0];
+	hs[0] = uf[nuf];
+	++nuf;
+	(void)op_add_std(v, n, SH_REFL1, ports, hs, vt_below(rng, 5) == 0);
+	if (vt_below(rng, 2)) {
+	    /* the unknown is deleted: a full standard naming it must now be
+	     * refused unless the first add was accepted */
+	    op_delete_parameter(v, hs[0]);
+	    hs[1] = VNACAL_MATCH;
+	    (void)op_add_std(v, n, SH_REFL2, ports, hs, 0);
+	}
+	if (vt_below(rng, 4) == 0)
+	    op_set_m_error(v, n, 2 + vt_below(rng, 4));
+    }
+    n->rich = 1;
+    while (!useful_done(n, 0)) {
+	if (add_useful(v, n, 0, 0) != 0)
+	    break;
+    }
+    op_solve(v, n);
+    for (int i = 0; i < nuf; ++i)
+	op_get_parameter_value(v, uf[i], n->grid[0]);
+    op_set_m_error(v, n, 2);			/* clear */
+    op_solve(v, n);
+    if (vt_below(rng, 2))
+	op_set_m_error(v, n, vt_below(rng, 2));	/* and set again */
+    if (vt_below(rng, 2))
+	op_set_m_error(v, n, 2);
+    if (n->solved) {
+	op_add_calibration(v, n, ADD_NAME(rng));
+	op_solve(v, n);
+	if (n->solved)
+	    op_add_calibration_a(v, n, 0, 0);	/* aliased replace */
+    }
+    op_save_load(v, 1);
+    for (int i = 0; i < 8; ++i) {
+	int variant = 0;
+
+	if (VC[0].vcp == NULL)
+	    break;
+	random_step(rng, &variant);
+    }
+}
+
 static void seed_case(vt_rng_t *rng, uint64_t seed, long c, uint64_t salt)
 {
     /* vt_seed once mapped consecutive seeds to one splitmix orbit shifted
@@ -2369,6 +2564,23 @@ int main(int argc, char **argv)
 	    vt_put("{\"e\":\"Reset\",\"case\":\"shapes:0:%ld\"}", c);
 	    vt_end_line();
 	    shape_case(c);
+	    finish_case();
+	}
+	return 0;
+    }
+    if (argc >= 5 && strcmp(argv[1], "state") == 0) {
+	uint64_t seed = strtoull(argv[2], NULL, 10);
+	long from = atol(argv[3]), to = atol(argv[4]);
+
+	for (long c = from; c < to; ++c) {
+	    vt_rng_t rng;
+
+	    seed_case(&rng, seed, c, 0x7374617465ull);
+	    vc_reset();
+	    vt_put("{\"e\":\"Reset\",\"case\":\"state:%llu:%ld\"}",
+		    (unsigned long long)seed, c);
+	    vt_end_line();
+	    state_case(&rng);
 	    finish_case();
 	}
 	return 0;
